@@ -66,7 +66,24 @@ type inclusiveGateway struct {
 	once                    sync.Once
 	flowTracker             *flowTracker
 	synchronized            bool
+	// arrivals counts the arrival markers sent so far (see InclusiveArrivalTrace)
+	arrivals uint64
 }
+
+// InclusiveArrivalTrace is sent by an inclusive gateway whenever a flow
+// arrives at it. Traces are totally ordered, so once the gateway's flow
+// tracker has seen this marker it has also seen every trace that led to the
+// arrival - in particular the FlowTrace of the fork that created the arriving
+// flow and its siblings. The gateway decides whom to wait for only then:
+// deciding from an older picture makes it fire before the other activated
+// branches have arrived (or wait for flows that no longer exist).
+type InclusiveArrivalTrace struct {
+	Node *schema.InclusiveGateway
+	Flow Flow
+	seq  uint64
+}
+
+func (t InclusiveArrivalTrace) Unpack() any { return t.Node }
 
 func newInclusiveGateway(wr *wiring, element *schema.InclusiveGateway) (gw *inclusiveGateway, err error) {
 	var defaultSequenceFlow *SequenceFlow
@@ -162,7 +179,6 @@ func (gw *inclusiveGateway) run(ctx context.Context, sender tracing.ISenderHandl
 					if gw.activated == nil {
 						// Haven't been activated yet
 						gw.activated = &flowSync{response: m.response, flow: m.flow}
-						gw.awaiting = gw.flowTracker.activeFlowsInCohort(m.flow.Id())
 						gw.arrived = []id.Id{m.flow.Id()}
 						gw.sync = make([]chan IAction, 0)
 					} else {
@@ -170,11 +186,19 @@ func (gw *inclusiveGateway) run(ctx context.Context, sender tracing.ISenderHandl
 						gw.arrived = append(gw.arrived, m.flow.Id())
 						gw.sync = append(gw.sync, m.response)
 					}
-					gw.trySync()
+					// the tracker's picture of the live flows is only used once
+					// it includes everything that happened before this arrival
+					// (it reports back through the activity channel)
+					gw.arrivals++
+					gw.tracer.Send(InclusiveArrivalTrace{Node: gw.element, Flow: m.flow, seq: gw.arrivals})
+					if gw.flowTracker.caughtUpTo(gw.arrivals) {
+						gw.awaiting = gw.flowTracker.activeFlowsInCohort(gw.activated.flow.Id())
+						gw.trySync()
+					}
 				}
 			}
 		case <-activity:
-			if !gw.synchronized && gw.activated != nil {
+			if !gw.synchronized && gw.activated != nil && gw.flowTracker.caughtUpTo(gw.arrivals) {
 				gw.awaiting = gw.flowTracker.activeFlowsInCohort(gw.activated.flow.Id())
 				gw.trySync()
 			}
@@ -240,6 +264,9 @@ type flowTracker struct {
 	activityCh chan struct{}
 	lock       sync.RWMutex
 	element    *schema.InclusiveGateway
+	// arrivalSeq is the sequence number of the last arrival marker of the
+	// tracker's gateway that has been processed
+	arrivalSeq uint64
 }
 
 func (tracker *flowTracker) activity() <-chan struct{} {
@@ -365,8 +392,21 @@ func (tracker *flowTracker) handleTrace(locked bool, trace tracing.ITrace, notif
 	case TerminationTrace:
 		delete(tracker.flows, t.FlowId)
 		notify = true
+	case InclusiveArrivalTrace:
+		if t.Node == tracker.element {
+			tracker.arrivalSeq = t.seq
+			notify = true
+		}
 	}
 	return locked, notify, reachedNode
+}
+
+// caughtUpTo reports whether the tracker has processed the arrival marker
+// with the given sequence number (and so every trace sent before it).
+func (tracker *flowTracker) caughtUpTo(seq uint64) bool {
+	tracker.lock.RLock()
+	defer tracker.lock.RUnlock()
+	return tracker.arrivalSeq >= seq
 }
 
 func (tracker *flowTracker) shutdown() {
